@@ -24,7 +24,7 @@ import supp.scope
 PROPERTY = 'C17'
 LEVEL = 'exploration'
 BUDGET_S = {'quick': 110, 'thorough': 1700}
-UNIT_TIMEOUT_S = 600
+UNIT_TIMEOUT_S = 1200
 VERIF = os.path.dirname(os.path.dirname(os.path.abspath(__file__)))
 
 RULE = ('One evaluation = one (program or project, request, configuration) answer, configuration = (identity-hash '
@@ -114,7 +114,7 @@ def materialise(case):
     # The directory name is a function of the case alone: path strings take part in the behaviour under test
     # (their hashes order any set they are put in), so the worker, its helper interpreters and a later replay
     # must all see the same paths.
-    core = {k: v for k, v in case.items() if k in ('kind', 'prog', 'spec', 'spec_b', 'libs', 'path', 'requests', 'req_seed')}
+    core = {k: v for k, v in case.items() if k in ('kind', 'prog', 'spec', 'spec_b', 'libs', 'strays', 'path', 'requests', 'req_seed')}
     root = '/tmp/vsimc17-%s-%s' % (case.get('_ns') or NS, prng.digest(core))
     shutil.rmtree(root, ignore_errors=True)
     os.makedirs(root)
@@ -125,6 +125,13 @@ def materialise(case):
             G.write_project(os.path.join(root, 'b'), case['spec_b'])
         else:
             G.write_project(root, case['spec'])
+        for rel in case.get('strays') or []:
+            # left-overs next to the source file: byte code of another interpreter, an extension built in place
+            # (the source file is the module, in every process)
+            for base in ([os.path.join(root, 'a'), os.path.join(root, 'b')] if case.get('spec_b') else [root]):
+                if os.path.exists(os.path.dirname(os.path.join(base, rel))):
+                    with open(os.path.join(base, rel), 'wb') as f:
+                        f.write(b'\x00stray ' + rel.encode())
         for k, lib in enumerate(case.get('libs') or []):
             # directories on sys.path that are not source roots (site-packages, PYTHONPATH entries); some module
             # names exist in more than one of them
@@ -322,6 +329,13 @@ def gen_case(seed, i, mode):
             # and a module that exists only there
             mods_b.append(_plain_module('zqonlyb', 'b'))
         case['spec_b'] = {'modules': mods_b}
+    if r.random() < 0.35:
+        strays = []
+        for m in spec['modules']:
+            if not m.get('init') and r.random() < 0.6:
+                for ext in r.sample(['.pyc', '.so', '.abi3.so', '.cpython-312-x86_64-linux-gnu.so'], r.choice((1, 1, 2))):
+                    strays.append(G.relpath(m)[:-3] + ext)
+        case['strays'] = strays
     if r.random() < 0.4:
         n = r.choice((2, 2, 3))
         libs = []
